@@ -17,7 +17,9 @@ CLAIMED = {
          'For each of the 75 (suite, version) pairs the real receiver engine is restored to its post-handshake state for every fault: every bit of every record, every record-level edit at every index, truncation at every byte, cross-connection splice, forged CBC records of every padding length (accepted when conformant, rejected for each wrong padding/MAC byte) and forged AEAD records; delivered bytes must be a prefix ending before the first touched record and the engine must be closed with a non-zero error once the touched record is complete. ASan/UBSan and the C06 monitor stay armed.',
          'Short sessions (3-5 records); single edits plus 200 random double edits per pair; OpenSSL EVP trusted for forging.'), 'C03': ('fault_enumeration', 'runtime monitoring: per-byte and per-record MITM fault injection on deterministic handshake replays, scripted validator / rogue policy / mismatching keys, with a never-ready / no-data oracle',
          'Each of 105 handshake scenarios (5 key exchanges x 3 versions x full/resumed/renegotiation x client-auth kinds) is replayed on the real engines once per fault: every byte of every handshake and CCS record of both flights is altered (quick: 6 scenarios complete, the rest every 8th byte; thorough: all bytes x 3 XOR values), plus drop/duplicate/swap/substitute at every record index; the destination endpoint must never become ready (or re-key), no application byte may be delivered, protected records must be rejected on receipt. 245 authentication cases script the X.509 validator, keys, server policy, version ranges and fallback SCSV, with honest controls.',
-         'An endpoint left waiting after its peer failed counts as never ready (no transport-closed API at engine level); a fully malicious server beyond what the policy API or a MITM can express is not modelled; error codes are not judged.'),
+         'An endpoint left waiting after its peer failed counts as never ready (no transport-closed API at engine level); a fully malicious server beyond what the policy API or a MITM can express is not modelled; error codes are not judged.'), 'C14': ('exploration', 'runtime monitoring: differential oracle against OpenSSL EVP (GCM, CCM) and a paper-level EAX reference under ASan/UBSan; exhaustive two-way splits and single-bit forgeries on short messages',
+         'GCM, CCM and EAX contexts over every AES CTR/CTRCBC implementation (and every GHASH for GCM) are driven with generated keys, nonces, tag lengths, AAD and messages; ciphertext and tag must equal the reference, decrypt must invert, any schedule of inject/run calls must give the same bytes (all two-way splits for lengths 0..80, random multi-way above), every single-bit change must fail check_tag, forbidden CCM parameters must be refused at reset, reused contexts and EAX saved-state shortcuts must match a fresh context.',
+         'Trusts OpenSSL 3.0 EVP and the EAX reference written from the paper (validated against the paper vectors at start-up); sampled parameters.'),
 }
 
 ENGINES = []
